@@ -250,6 +250,15 @@ class FractionScalar(AbstractValueWithQuantityObject):
         v2 = other.GetValue(self.unit)
         return v1 < v2
 
+    def __le__(self, other: Any) -> bool:
+        return not other < self
+
+    def __gt__(self, other: Any) -> bool:
+        return other < self
+
+    def __ge__(self, other: Any) -> bool:
+        return not self < other
+
     # RegisterFractionScalarConversion -----------------------------------------
     @classmethod
     def RegisterFractionScalarConversion(cls) -> None:
